@@ -502,6 +502,66 @@ mod refwrite {
     pub fn top(v: &Value, rng: &mut Rng) -> String { match v { Value::Grid(g) => grid(g, rng, 0, false), other => value(other, rng, 0) } }
 }
 
+
+// ---- an independent *writer* for Hayson that picks, at random, among the spellings the format allows: members in any order, the optional
+//      "_kind":"dict", "tz":"UTC" present or absent for UTC timestamps, numbers as integer / decimal / exponent text, optional grid and column meta
+mod refhaysonwrite {
+    use super::randgen::Rng;
+    use libhaystack::val::{Dict, Grid, Value};
+    fn js(s: &str) -> String { serde_json::to_string(s).unwrap() }
+    fn obj(mut members: Vec<(String, String)>, rng: &mut Rng) -> String {
+        for i in (1..members.len()).rev() { let j = rng.below(i + 1); members.swap(i, j); }
+        format!("{{{}}}", members.iter().map(|(k, v)| format!("{}:{}", js(k), v)).collect::<Vec<_>>().join(","))
+    }
+    fn num(x: f64, rng: &mut Rng) -> String {
+        if x == 0.0 && x.is_sign_negative() { return "-0.0".into(); }
+        match rng.below(3) { 0 => format!("{x:e}"), 1 if x.fract() == 0.0 && x.abs() < 1e15 => format!("{}", x as i64), _ => { let t = format!("{x}"); if t.contains('.') || t.contains('e') { t } else { format!("{t}.0") } } }
+    }
+    fn dict(d: &Dict, rng: &mut Rng, kind: bool) -> String {
+        let mut m: Vec<(String, String)> = d.iter().map(|(k, v)| (k.clone(), value(v, rng))).collect();
+        if kind { m.push(("_kind".into(), js("dict"))); }
+        obj(m, rng)
+    }
+    pub fn value(v: &Value, rng: &mut Rng) -> String {
+        let k = |name: &str| ("_kind".to_string(), js(name));
+        match v {
+            Value::Null => "null".into(), Value::Bool(b) => b.value.to_string(), Value::Str(s) => js(&s.value),
+            Value::Marker => obj(vec![k("marker")], rng), Value::Remove => obj(vec![k("remove")], rng), Value::Na => obj(vec![k("na")], rng),
+            Value::Number(n) => {
+                let special = if n.value.is_nan() { Some("NaN") } else if n.value == f64::INFINITY { Some("INF") } else if n.value == f64::NEG_INFINITY { Some("-INF") } else { None };
+                match (special, n.unit) {
+                    (Some(t), _) => obj(vec![k("number"), ("val".into(), js(t))], rng),
+                    (None, None) => if rng.below(4) == 0 { obj(vec![k("number"), ("val".into(), num(n.value, rng))], rng) } else { num(n.value, rng) },
+                    (None, Some(u)) => obj(vec![k("number"), ("val".into(), num(n.value, rng)), ("unit".into(), js(u.symbol()))], rng) } }
+            Value::Ref(r) => { let mut m = vec![k("ref"), ("val".into(), js(&r.value))]; if let Some(d) = &r.dis { m.push(("dis".into(), js(d))); } obj(m, rng) }
+            Value::Symbol(x) => obj(vec![k("symbol"), ("val".into(), js(&x.value))], rng),
+            Value::Uri(x) => obj(vec![k("uri"), ("val".into(), js(&x.value))], rng),
+            Value::XStr(x) => obj(vec![k("xstr"), ("type".into(), js(&x.r#type)), ("val".into(), js(&x.value))], rng),
+            Value::Coord(c) => obj(vec![k("coord"), ("lat".into(), num(c.lat, rng)), ("lng".into(), num(c.long, rng))], rng),
+            Value::Date(d) => obj(vec![k("date"), ("val".into(), js(&d.to_string()))], rng),
+            Value::Time(t) => obj(vec![k("time"), ("val".into(), js(&t.to_string()))], rng),
+            Value::DateTime(d) => { let iso = { use libhaystack::encoding::zinc::encode::ToZinc; v.to_zinc_string().unwrap().split(' ').next().unwrap().to_string() }; let mut m = vec![k("dateTime"), ("val".into(), js(&iso))];
+                if !d.is_utc() { m.push(("tz".into(), js(&d.timezone_short_name()))); } else if rng.below(2) == 0 { m.push(("tz".into(), js("UTC"))); } obj(m, rng) }
+            Value::List(l) => format!("[{}]", l.iter().map(|e| value(e, rng)).collect::<Vec<_>>().join(",")),
+            Value::Dict(d) => { let k = rng.below(3) == 0; dict(d, rng, k) }
+            Value::Grid(g) => grid(g, rng),
+        }
+    }
+    fn grid(g: &Grid, rng: &mut Rng) -> String {
+        let mut meta: Vec<(String, String)> = g.meta.iter().flat_map(|m| m.iter()).map(|(k, v)| (k.clone(), value(v, rng))).collect();
+        let with_ver = g.ver != "3.0" || rng.below(2) == 0;
+        if with_ver { meta.push(("ver".into(), js(&g.ver))); }
+        let mut m = vec![("_kind".to_string(), js("grid"))];
+        if with_ver || !meta.is_empty() || rng.below(2) == 0 { m.push(("meta".into(), obj(meta, rng))); }
+        let cols: Vec<String> = g.columns.iter().map(|c| { let mut cm = vec![("name".to_string(), js(&c.name))];
+            match &c.meta { Some(d) if !d.is_empty() => cm.push(("meta".into(), dict(d, rng, false))), _ => if rng.below(3) == 0 { cm.push(("meta".into(), "{}".into())); } } obj(cm, rng) }).collect();
+        m.push(("cols".into(), format!("[{}]", cols.join(","))));
+        let rows: Vec<String> = g.rows.iter().map(|r| dict(r, rng, false)).collect();
+        m.push(("rows".into(), format!("[{}]", rows.join(","))));
+        obj(m, rng)
+    }
+}
+
 fn main() {
     let args: Vec<String> = std::env::args().collect();
     let fam = args.get(1).map(|s| s.as_str()).unwrap_or("");
@@ -1403,6 +1463,23 @@ fn main() {
                 }
             }
             println!("RESULT enum:random-spellings seed={seed}: {count} random values in random legal spellings are decoded to the value they denote");
+        }
+        // ---- C05 reader side: seeded random values spelled by the independent Hayson writer in a random legal spelling must be decoded to the value
+        "enum:random-hayson-spellings" => {
+            use randgen::*;
+            let seed: u64 = std::env::var("VERIF_SEED").ok().and_then(|s| s.parse().ok()).unwrap_or(0);
+            let count: usize = args.get(2).and_then(|s| s.parse().ok()).unwrap_or(1500);
+            let mut rng = Rng::seeded(seed ^ 0xAAAA);
+            for i in 0..count {
+                let v = value(&mut rng, 0, &IDS, &STRS, &UNITS, &ZONES);
+                let text = refhaysonwrite::value(&v, &mut rng);
+                let got = serde_json::from_str::<Value>(&text);
+                if !matches!(&got, Ok(b) if format!("{:?}", norm(b)) == format!("{:?}", norm(&v))) {
+                    println!("RESULT enum:random-hayson-spellings seed={seed} value #{i} {v:?}: the Hayson document {text} is decoded as {got:?}");
+                    std::process::exit(3);
+                }
+            }
+            println!("RESULT enum:random-hayson-spellings seed={seed}: {count} random values in random legal Hayson spellings are decoded to the value they denote");
         }
         // ---- C09 enumerator (evaluation half): `id *== @ref` over resolvers whose refs form chains and cycles of several shapes must
         //      terminate with the right answer; a run that does not come back is reported as a hang by the caller's watchdog
